@@ -1,10 +1,10 @@
 CONSTANTS
-  Workers <- Workers_newthread
-  NTs <- NTs_newthread
-  ThreadNames <- Threads_newthread
+  Workers <- MCWorkers
+  NTs <- MCNTs
+  ThreadNames <- MCThreads
   WyFix = FALSE
   AllowSpurious = FALSE
-INIT Init_newthread
+INIT MCInit
 NEXT Next
 CHECK_DEADLOCK TRUE
 INVARIANTS TypeOK NoBad FuncOnce ReadyImpliesRan GetsAgree DeallocOnce RefsSane ThenAfterReady TsWaitImpliesReady CountersSane AtEnd WhenAllReady WhenAnyReady CombFOnce
